@@ -4,6 +4,7 @@ import (
 	"fmt"
 	"go/token"
 	"go/types"
+	"sort"
 	"strings"
 
 	"golang.org/x/tools/go/ssa"
@@ -357,6 +358,9 @@ func (vc *VC) execCall(ins *ssa.Call) {
 			sig := cc.Signature()
 			// build a signature-like name list: receiver is "recv"
 			vc.applyContract(ins, c, nil, sig, args, true)
+			return
+		}
+		if vc.devirtualize(ins, recv, args) {
 			return
 		}
 		vc.callees["invoke:"+cc.Method.FullName()] = true
@@ -736,4 +740,97 @@ func shortName(s string) string {
 		return s[i+1:]
 	}
 	return s
+}
+
+// devirtualize: an interface method call whose receiver may hold dynamic types seen in this function
+// (values converted to interfaces here) is split by type tag: under `tag == T` the contract of T's method
+// applies; for any other tag the call is havocked.
+func (vc *VC) devirtualize(ins *ssa.Call, recv *Val, args []*Val) bool {
+	cc := ins.Common()
+	type cand struct {
+		t   types.Type
+		f   *ssa.Function
+		c   *Contract
+		tag string
+	}
+	var cands []cand
+	for tagStr, t := range vc.tagTypes {
+		ms := vc.e.prog.MethodSets.MethodSet(t)
+		sel := ms.Lookup(cc.Method.Pkg(), cc.Method.Name())
+		if sel == nil {
+			continue
+		}
+		f := vc.e.prog.MethodValue(sel)
+		if f == nil {
+			continue
+		}
+		c := vc.e.contractFor(f)
+		if c == nil {
+			continue
+		}
+		cands = append(cands, cand{t, f, c, tagStr})
+	}
+	if len(cands) == 0 {
+		return false
+	}
+	sort.Slice(cands, func(i, j int) bool { return cands[i].tag < cands[j].tag })
+	pc0 := vc.cur.pc
+	pre := vc.cur.heap.clone()
+	var conds []string
+	var heaps []*Heap
+	var results []*Val
+	none := []string{}
+	for _, cd := range cands {
+		guard := sEq(recv.C[0], cd.tag)
+		none = append(none, sNot(guard))
+		vc.cur.heap = pre.clone()
+		vc.cur.pc = vc.define("pc_dv", "Bool", sAnd(pc0, guard))
+		// receiver as the concrete method expects it
+		var rv *Val
+		sigRecv := cd.f.Signature.Recv().Type()
+		if _, isPtr := sigRecv.Underlying().(*types.Pointer); isPtr {
+			rv = &Val{K: KPtr, T: sigRecv, C: []string{recv.C[1], recv.C[2]}}
+		} else {
+			rv = vc.load(vc.cur.heap, layoutOf(sigRecv), sigRecv, recv.C[1], recv.C[2])
+			if rv.K == KAgg {
+				rv.H = vc.cur.heap.clone()
+			}
+		}
+		cargs := append([]*Val{rv}, args[1:]...)
+		vc.callees[vc.e.fnKey(cd.f)] = true
+		vc.applyContract(ins, cd.c, cd.f, cd.f.Signature, cargs, false)
+		conds = append(conds, guard)
+		heaps = append(heaps, vc.cur.heap)
+		results = append(results, vc.vals[ins])
+	}
+	// any other dynamic type: unknown effect
+	vc.cur.heap = pre.clone()
+	vc.cur.pc = pc0
+	vc.havocAll(vc.cur.heap, nil)
+	heaps = append(heaps, vc.cur.heap)
+	results = append(results, vc.resultVal(ins, vc.cur.heap))
+	vc.callees["invoke:"+cc.Method.FullName()] = true
+	merged := vc.mergeHeaps(conds, heaps)
+	vc.cur.heap = merged
+	vc.cur.pc = pc0
+	// merge results
+	last := results[len(results)-1]
+	if last.K == KUnit {
+		vc.vals[ins] = last
+		return true
+	}
+	if last.K == KTuple {
+		out := &Val{K: KTuple, T: last.T}
+		for i := range last.Elems {
+			var vs []*Val
+			for _, r := range results {
+				vs = append(vs, r.Elems[i])
+			}
+			out.Elems = append(out.Elems, vc.iteVals(conds, vs, last.Elems[i].T))
+		}
+		vc.vals[ins] = out
+		return true
+	}
+	vc.vals[ins] = vc.iteVals(conds, results, last.T)
+	return true
 }
